@@ -3,3 +3,5 @@ import Tv.Model.Features
 import Tv.Spec.Stats
 import Tv.Proto
 import Tv.Lemmas.Driver
+import Tv.Model.C19Gen
+import Tv.Spec.C19Gen
